@@ -105,6 +105,7 @@ class Explorer:
     exhaustive: bool = True
     bound: str = ""             # textual statement of the completed bound
     determinism_probe: int = 3  # first cases executed twice
+    require: dict = field(default_factory=dict)   # minimal values of summed stats (vacuity guards), e.g. {"kinks": 1}
 
 
 class CaseTimeout(Exception):
